@@ -25,6 +25,9 @@
 //	lifet <op,…>      as life, but both servers run with an idle Timeout of 1 s (a session that keeps talking is never idle)
 //	b<i>:<ms>         keep session i busy for <ms> milliseconds: a NOOP every 200 ms, each answered        -> last reply
 //
+//	stls <op,…>       as life, but the POP3 server runs with TLSEnabled (not ForceTLS): sessions start in plain text and
+//	                  may upgrade;  t<i> = session i sends STLS, gets +OK, and the client performs the TLS handshake -> +OK | tlsfail
+//
 //	tls <op,…>        as life, but the POP3 server runs with TLSEnabled+ForceTLS (self-signed certificate made at
 //	                  run time) and POP3 clients speak TLS; extra op xP: a plain-text client on the TLS port      -> dropped
 //
@@ -148,6 +151,7 @@ type world struct {
 	hubEvents  *recorder
 	gs         *gateStore
 	tls        bool
+	stls       bool
 	tmpDir     string
 	openByProt [2]int
 }
@@ -231,6 +235,8 @@ func selfSigned(dir string) (certFile, keyFile string, err error) {
 
 var shortTimeouts bool // kind lifet: idle Timeout of 1 s on both servers
 
+var stlsMode bool // kind stls: POP3 TLSEnabled without ForceTLS
+
 func newWorld(retention string, tlsPOP3 bool) (*world, error) {
 	storage.Constructors["memory"] = mem.New
 	for _, e := range os.Environ() {
@@ -250,8 +256,8 @@ func newWorld(retention string, tlsPOP3 bool) (*world, error) {
 	setenv("INBUCKET_STORAGE_RETENTIONPERIOD", retention)
 	setenv("INBUCKET_STORAGE_RETENTIONSLEEP", "40ms")
 	setenv("INBUCKET_WEB_MONITORHISTORY", "5")
-	w := &world{tls: tlsPOP3}
-	if tlsPOP3 {
+	w := &world{tls: tlsPOP3, stls: stlsMode}
+	if tlsPOP3 || stlsMode {
 		base := os.Getenv("VERIF_WORKDIR")
 		if base == "" {
 			base = os.TempDir()
@@ -266,7 +272,9 @@ func newWorld(retention string, tlsPOP3 bool) (*world, error) {
 			return nil, err
 		}
 		setenv("INBUCKET_POP3_TLSENABLED", "true")
-		setenv("INBUCKET_POP3_FORCETLS", "true")
+		if tlsPOP3 {
+			setenv("INBUCKET_POP3_FORCETLS", "true")
+		}
 		setenv("INBUCKET_POP3_TLSCERT", cf)
 		setenv("INBUCKET_POP3_TLSPRIVKEY", kf)
 	}
@@ -576,6 +584,27 @@ func runLife(ops []string, tlsPOP3 bool) []string {
 		case o == "U":
 			w.gs.open()
 			outs = append(outs, ".")
+		case o[0] == 't':
+			c := cs[vh.AtoI(o[1:])]
+			if c == nil || !c.open || c.hold != nil || c.proto != 1 {
+				outs = append(outs, "?")
+				continue
+			}
+			r := c.cmd("STLS")
+			if r != "+OK" {
+				outs = append(outs, r)
+				continue
+			}
+			tc := tls.Client(c.conn, &tls.Config{InsecureSkipVerify: true})
+			tc.SetDeadline(time.Now().Add(longWait))
+			if err := tc.Handshake(); err != nil {
+				outs = append(outs, "tlsfail")
+				continue
+			}
+			tc.SetDeadline(time.Time{})
+			c.conn = tc
+			c.r = bufio.NewReader(tc)
+			outs = append(outs, "+OK")
 		case o[0] == 'b':
 			c := cs[vh.AtoI(f[0][1:])]
 			if c == nil || !c.open || c.hold != nil || len(f) < 2 {
@@ -1058,8 +1087,9 @@ func run1(kind string, in []string) []string {
 		return runBoot(in[0], in[1])
 	case "scan":
 		return runScan(vh.AtoI(in[0]), vh.AtoI(in[1]), vh.AtoI(in[2]))
-	case "life", "tls", "lifet":
+	case "life", "tls", "lifet", "stls":
 		shortTimeouts = kind == "lifet"
+		stlsMode = kind == "stls"
 		var ops []string
 		if in[0] != "-" {
 			ops = strings.Split(in[0], ",")
